@@ -45,13 +45,21 @@ type Case struct {
 	Peers         []PeerSpec    `json:"peers"`
 	Callers       []Caller      `json:"callers"`
 	StopAtMs      int           `json:"stop_at_ms"`
+	// StopRace: what happens in the very instant Stop is called (no
+	// quiescence in between): "" | grow (every peer announces N new
+	// blocks) | headers (peer 0 sends the next N headers unsolicited).
+	StopRace string `json:"stop_race,omitempty"`
+	RaceN    int    `json:"race_n,omitempty"`
 }
 
 func genCase(t *rapid.T) Case {
 	p := kit.ParamSpec{Retarget: 0, Spacing: 60, Adj: 4, VerFloor: 1}
 	base := kit.Pick(t, "base", []int{5, 12, 40, 90, 150})
-	if kit.Thorough() && kit.Uni(t, "bigp", 8) == 0 {
-		base = kit.Pick(t, "bigbase", []int{1004, 2100})
+	if kit.Uni(t, "bigp", 8) == 0 {
+		base = 1004
+		if kit.Thorough() {
+			base = kit.Pick(t, "bigbase", []int{1004, 2100})
+		}
 	}
 	ws := kit.WorldSpec{P: p, Seed: rapid.Uint64Range(0, 3).Draw(t, "wseed"), Base: base, Future: 12, Pace: 1, Tx: true}
 	ws.Branches = []kit.BranchSpec{{Parent: 0, At: max(1, base-3), Len: 12, Pace: 1}}
@@ -113,6 +121,8 @@ func genCase(t *rapid.T) Case {
 	}
 	c.Callers = out
 	c.StopAtMs = kit.Pick(t, "stopat", []int{0, 1, 50, 500, 2000, 7000, 20000, 45000})
+	c.StopRace = kit.Pick(t, "stoprace", []string{"", "grow", "grow", "headers"})
+	c.RaceN = rapid.IntRange(1, 8).Draw(t, "racen")
 	return c
 }
 
@@ -271,6 +281,22 @@ func runCase(t *testing.T, c Case) kit.Verdict {
 		}
 		// Stop, from its own goroutine; everything must be over within
 		// two virtual minutes.
+		// Activity injected in the very instant of Stop (the client is
+		// not quiescent when Stop begins).
+		if c.StopRace != "" {
+			_, bt, _ := cs.BlockHeaders.ChainTip()
+			cur := path[min(int(bt), len(path)-1)]
+			to := path[min(len(path)-1, int(cur.Height)+c.RaceN)]
+			switch c.StopRace {
+			case "grow":
+				for _, p := range s.Peers {
+					p.SetView(to, true)
+				}
+			case "headers":
+				s.Peers[0].SendHeaders(w.Batch(kit.Segment(cur.Height, to), -1, ""))
+			}
+			v.Class("stop-race:%s", c.StopRace)
+		}
 		stopDone := make(chan struct{})
 		var stopErr error
 		go func() {
